@@ -175,6 +175,52 @@ func metaEdits() []func(g *vkit.Rand) edit {
 				a.SetAnnotations(l)
 			}}
 		},
+		// boundary shapes: a key that differs only in letter case, a non-ASCII value, 40 entries at once
+		func(g *vkit.Rand) edit {
+			mode, onLabels := g.Intn(3), g.Bool()
+			name, part := "annotations(case/non-ASCII/many)", "annotations"
+			if onLabels {
+				name, part = "labels(case/many)", "labels"
+			}
+			return edit{name, part, func(o runtime.Object) {
+				a := acc(o)
+				get, set := a.GetAnnotations, a.SetAnnotations
+				if onLabels {
+					get, set = a.GetLabels, a.SetLabels
+				}
+				l := copyMap(get())
+				if l == nil {
+					l = map[string]string{}
+				}
+				switch mode {
+				case 0: // same key, other case (a different key)
+					var ks []string
+					for k := range l {
+						ks = append(ks, k)
+					}
+					sort.Strings(ks) // edits must be deterministic: they are re-applied when a pair is shrunk
+					for _, k := range ks {
+						if up := strings.ToUpper(k[:1]) + k[1:]; up != k && !strings.Contains(k, "/") {
+							v := l[k]
+							delete(l, k)
+							l[up] = v
+							break
+						}
+					}
+				case 1:
+					if onLabels {
+						l["tier"] = "Tier-1"
+					} else {
+						l["note"] = "héllo wörld ✓"
+					}
+				case 2:
+					for i := 0; i < 40; i++ {
+						l[fmt.Sprintf("k%d", i)] = fmt.Sprint(i % 3)
+					}
+				}
+				set(l)
+			}}
+		},
 		// nil <-> empty map: the same stored form (omitempty); judged as "either verdict acceptable" (see ambiguous)
 		func(g *vkit.Rand) edit {
 			return edit{"annotations(nil<->empty)", "annotations", func(o runtime.Object) {
@@ -240,6 +286,10 @@ func copyMap(m map[string]string) map[string]string {
 	}
 	return o
 }
+
+// object names: the conventions do not depend on the name; upper case, ':' , IPv6 literal, 253 characters are all legal path
+// segment names for these cluster-scoped kinds
+var objNames = []string{"c20-cluster", "c20-cluster", "Cluster-A.Example.COM", "cluster-a.example.com:6443", "[2001:db8::1]:6443", "x", strings.Repeat("a", 253), "集群-1"}
 
 func storedMeta(g *vkit.Rand, name string) metav1.ObjectMeta {
 	m := metav1.ObjectMeta{
@@ -326,7 +376,7 @@ func ucKind() kindGen {
 	return kindGen{
 		Kind: "UpstreamCluster",
 		Stored: func(g *vkit.Rand) runtime.Object {
-			return &proxyv1alpha1.UpstreamCluster{ObjectMeta: storedMeta(g, "c20-cluster"), Spec: genUCSpec(g)}
+			return &proxyv1alpha1.UpstreamCluster{ObjectMeta: storedMeta(g, g.Pick(objNames)), Spec: genUCSpec(g)}
 		},
 		SpecSt: []func(g *vkit.Rand) edit{
 			func(g *vkit.Rand) edit {
@@ -369,6 +419,56 @@ func ucKind() kindGen {
 						return
 					}
 					u.Spec.DispatchPolicies = append(u.Spec.DispatchPolicies, proxyv1alpha1.DispatchPolicy{Rules: []proxyv1alpha1.DispatchPolicyRule{{Verbs: []string{v}}}})
+				}}
+			},
+			// a *bool that goes nil <-> false (different stored forms: omitted vs false)
+			func(g *vkit.Rand) edit {
+				return edit{"spec.servers[0].disabled(nil<->false)", "spec", func(o runtime.Object) {
+					u := uc(o)
+					if len(u.Spec.Servers) == 0 {
+						return
+					}
+					sv := append([]proxyv1alpha1.UpstreamClusterServer(nil), u.Spec.Servers...)
+					if sv[0].Disabled == nil {
+						sv[0].Disabled = bp(false)
+					} else if !*sv[0].Disabled {
+						sv[0].Disabled = nil
+					}
+					u.Spec.Servers = sv
+				}}
+			},
+			// the same servers in another order
+			func(g *vkit.Rand) edit {
+				return edit{"spec.servers(reordered)", "spec", func(o runtime.Object) {
+					u := uc(o)
+					n := len(u.Spec.Servers)
+					if n < 2 {
+						return
+					}
+					sv := make([]proxyv1alpha1.UpstreamClusterServer, n)
+					for i := range sv {
+						sv[i] = u.Spec.Servers[n-1-i]
+					}
+					u.Spec.Servers = sv
+				}}
+			},
+			// byte fields: content change, nil <-> empty
+			func(g *vkit.Rand) edit {
+				mode := g.Intn(3)
+				return edit{"spec.secureServing.keyData", "spec", func(o runtime.Object) {
+					u := uc(o)
+					switch mode {
+					case 0:
+						u.Spec.SecureServing.KeyData = []byte("-----BEGIN KEY-----\nA\n")
+					case 1:
+						u.Spec.SecureServing.KeyData = append(append([]byte(nil), u.Spec.SecureServing.KeyData...), 'x')
+					case 2:
+						if u.Spec.SecureServing.KeyData == nil {
+							u.Spec.SecureServing.KeyData = []byte{}
+						} else if len(u.Spec.SecureServing.KeyData) == 0 {
+							u.Spec.SecureServing.KeyData = nil
+						}
+					}
 				}}
 			},
 			// nil <-> empty list inside the spec: same stored form, "either verdict acceptable"
@@ -460,7 +560,7 @@ func rlKind() kindGen {
 	return kindGen{
 		Kind: "RateLimitCondition",
 		Stored: func(g *vkit.Rand) runtime.Object {
-			return &proxyv1alpha1.RateLimitCondition{ObjectMeta: storedMeta(g, "c20-condition"), Spec: genRLSpec(g), Status: genRLStatus(g)}
+			return &proxyv1alpha1.RateLimitCondition{ObjectMeta: storedMeta(g, g.Pick(objNames)), Spec: genRLSpec(g), Status: genRLStatus(g)}
 		},
 		SpecSt: []func(g *vkit.Rand) edit{
 			func(g *vkit.Rand) edit {
@@ -575,13 +675,18 @@ func run(k *servedKind, kg *kindGen, op opKind, stored runtime.Object, edits []e
 	if err != nil {
 		return outcome{Refused: true, Detail: err.Error()}
 	}
-	out.After = submitted
-	sm, am := acc(stored), acc(submitted)
-	// what the client asked for (before the API path touched it)
-	asked := stored.DeepCopyObject()
+	asked := stored.DeepCopyObject() // what the client asked for (before the API path touched it)
 	for _, e := range edits {
 		e.Apply(asked)
 	}
+	return judge(op, stored, asked, submitted)
+}
+
+// judge applies the statement to one observed transition: `stored` was there, the client sent `asked`, `submitted` is what
+// the API path made of it (= what gets stored).
+func judge(op opKind, stored, asked, submitted runtime.Object) (out outcome) {
+	out.After = submitted
+	sm, am := acc(stored), acc(submitted)
 	switch op {
 	case opCreate:
 		if st := part(submitted, "Status"); !semEq(st, zeroOf(st)) {
@@ -821,6 +926,32 @@ func TestCheck(t *testing.T) {
 						r.Count("refused_"+string(op), 1)
 						continue
 					}
+					if o.After != nil && len(edits) > 0 {
+						asked := stored.DeepCopyObject()
+						for _, e := range edits {
+							e.Apply(asked)
+						}
+						switch op {
+						case opStatus: // the clauses are only exercised when the client really sent something else
+							if !semEq(part(stored, "Spec"), part(asked, "Spec")) {
+								r.Count("status_update_sent_a_different_spec", 1)
+							}
+							if !mapsSemEq(acc(stored).GetLabels(), acc(asked).GetLabels()) {
+								r.Count("status_update_sent_different_labels", 1)
+							}
+						case opUpdate:
+							if !semEq(part(stored, "Status"), part(asked, "Status")) {
+								r.Count("main_update_sent_a_different_status", 1)
+							}
+						case opCreate:
+							if st := part(asked, "Status"); !semEq(st, zeroOf(st)) {
+								r.Count("create_sent_a_status", 1)
+							}
+							if acc(asked).GetGeneration() > 1 {
+								r.Count("create_sent_generation_above_1", 1)
+							}
+						}
+					}
 					if op == opStatus && o.After != nil {
 						asked := stored.DeepCopyObject()
 						for _, e := range edits {
@@ -840,26 +971,7 @@ func TestCheck(t *testing.T) {
 					if o.Class == "" {
 						continue
 					}
-					min := shrink(tg.k, &tg.kg, op, stored, edits, o.Class)
-					mo := run(tg.k, &tg.kg, op, stored, min)
-					sig := fmt.Sprintf("C20/%s/%s/differs=%s", op, o.Class, diffParts(stored, min))
-					if k := keySpecific(tg.k, &tg.kg, op, stored, min, o.Class); k != "" {
-						sig += "/annotation-key=" + k // the same change on a neutral key conforms
-					}
-					if acc(stored).GetDeletionTimestamp() != nil && op != opCreate {
-						live := stored.DeepCopyObject()
-						acc(live).SetDeletionTimestamp(nil)
-						acc(live).SetDeletionGracePeriodSeconds(nil)
-						if lo := run(tg.k, &tg.kg, op, live, min); lo.Class != o.Class {
-							sig += "/stored=terminating" // the same pair on a live object conforms
-						}
-					}
-					if op == opCreate { // there is no stored object on create; the submitted one is the whole input
-						sig = fmt.Sprintf("C20/%s/%s", op, o.Class)
-					}
-					r.Violation(sig, fmt.Sprintf("%s of a %s through the strategy registered for %s: %s; submitted = stored + edits %v (minimal: %v); stored %s",
-						op, tg.kg.Kind, tg.k.Kind, mo.Detail, names(edits), names(min), js(stored)),
-						map[string]interface{}{"operation": op, "strategyOf": tg.k.Kind, "objectKind": tg.kg.Kind, "stored": stored, "edits": names(edits), "minimalEdits": names(min), "after": mo.After, "detail": mo.Detail})
+					report(r, tg.k, &tg.kg, op, stored, edits, o, "")
 				}
 				if i == 0 || i == 60 {
 					r.Sample(map[string]interface{}{"target": label, "stored": stored, "edits": names(edits)})
@@ -867,12 +979,46 @@ func TestCheck(t *testing.T) {
 			})
 			r.Count("targets", 1)
 		}
+		storeHistories(r, kinds, gens)
+		r.Require(r.Counter("store_histories") >= 500 && r.Counter("store_steps_judged") >= 5000, "the store-backed histories did not run")
+		r.Require(r.Violations() > 0 || (r.Counter("store_recreated_after_delete") >= 100 && r.Counter("store_became_terminating_by_delete") >= 50 && r.Counter("store_create_on_update") >= 100 && r.Counter("store_unconditional_updates") >= 500),
+			"the store-backed histories did not exercise delete+recreate / terminating-by-delete / create-on-update / unconditional updates")
+		r.Require(r.Violations() > 0 || (r.Counter("status_update_sent_a_different_spec") > 1000 && r.Counter("status_update_sent_different_labels") > 1000 && r.Counter("main_update_sent_a_different_status") > 1000 &&
+			r.Counter("create_sent_a_status") > 1000 && r.Counter("create_sent_generation_above_1") > 1000), "some clause was never put to the test (client never sent the part the API must ignore)")
 		tot := r.Counter("cases_create") + r.Counter("cases_main-update") + r.Counter("cases_status-update")
 		ref := r.Counter("refused_create") + r.Counter("refused_main-update") + r.Counter("refused_status-update")
 		r.Require(tot > 10000, "too few cases")
 		r.Require(r.Violations() > 0 || (r.Counter("main_update_generation_kept") > 1000 && r.Counter("main_update_generation_bumped") > 1000), "main-resource updates do not exercise both generation outcomes")
 		r.Require(ref*10 < tot, fmt.Sprintf("too many pairs refused by the API path (%d of %d)", ref, tot))
 	})
+}
+
+// report shrinks a violating pair, classifies it and records it. via names the path when it is not the direct one.
+func report(r *vkit.R, k *servedKind, kg *kindGen, op opKind, stored runtime.Object, edits []edit, o outcome, via string) {
+	min := shrink(k, kg, op, stored, edits, o.Class)
+	mo := run(k, kg, op, stored, min)
+	sig := fmt.Sprintf("C20/%s/%s/differs=%s", op, o.Class, diffParts(stored, min))
+	if ks := keySpecific(k, kg, op, stored, min, o.Class); ks != "" {
+		sig += "/annotation-key=" + ks // the same change on a neutral key conforms
+	}
+	if acc(stored).GetDeletionTimestamp() != nil && op != opCreate {
+		live := stored.DeepCopyObject()
+		acc(live).SetDeletionTimestamp(nil)
+		acc(live).SetDeletionGracePeriodSeconds(nil)
+		if lo := run(k, kg, op, live, min); lo.Class != o.Class {
+			sig += "/stored=terminating" // the same pair on a live object conforms
+		}
+	}
+	if op == opCreate { // there is no stored object on create; the submitted one is the whole input
+		sig = fmt.Sprintf("C20/%s/%s", op, o.Class)
+	}
+	path := "through the strategy registered for " + k.Kind
+	if via != "" {
+		path = via
+	}
+	r.Violation(sig, fmt.Sprintf("%s of a %s %s: %s; submitted = stored + edits %v (minimal: %v); stored %s",
+		op, kg.Kind, path, mo.Detail, names(edits), names(min), js(stored)),
+		map[string]interface{}{"operation": op, "strategyOf": k.Kind, "objectKind": kg.Kind, "stored": stored, "edits": names(edits), "minimalEdits": names(min), "after": mo.After, "detail": mo.Detail, "path": path})
 }
 
 func js2(v interface{}) string {
